@@ -98,11 +98,11 @@ def convertUCNAux : Nat → List Nat → Nat → List (Nat × Nat)
       | b :: rest' =>
         if b = 117 then                                       -- "\\u"
           let c := readUniversalChar rest' 4 0
-          if c ≠ 0 then (encodeUtf8 c).map (·, s) ++ convertUCNAux f (rest'.drop 4) (s + 6)
+          if c ≠ 0 ∧ c ≠ LF then (encodeUtf8 c).map (·, s) ++ convertUCNAux f (rest'.drop 4) (s + 6)
           else (a, s) :: convertUCNAux f rest (s + 1)
         else if b = 85 then                                   -- "\\U"
           let c := readUniversalChar rest' 8 0
-          if c ≠ 0 then (encodeUtf8 c).map (·, s) ++ convertUCNAux f (rest'.drop 8) (s + 10)
+          if c ≠ 0 ∧ c ≠ LF then (encodeUtf8 c).map (·, s) ++ convertUCNAux f (rest'.drop 8) (s + 10)
           else (a, s) :: convertUCNAux f rest (s + 1)
         else (a, s) :: (b, s + 1) :: convertUCNAux f rest' (s + 2)
     else (a, s) :: convertUCNAux f rest (s + 1)
@@ -115,8 +115,8 @@ def convertUniversalChars (p : List Nat) : List Nat := (convertUCN p).map (·.1)
 /-- the text `tokenize()` sees and `add_line_numbers` numbers -/
 def tokenizerText (bytes : List Nat) : List Nat := convertUniversalChars (sourceText bytes)
 
-/-- no universal character name of the text denotes U+000A: every '\n' that `convert_universal_chars` writes is a copy of a
-    '\n' of its input.  (C11 6.4.3p2 forbids `\u000a`; with it a single source line becomes two for chibicc.) -/
+/-- every '\n' that `convert_universal_chars` writes is a copy of a '\n' of its input (true for every text since the pass
+    leaves `\u000a` alone: Lemmas `noNewlineUCN_always`; before that repair `/* \u000a */` shifted every later line) -/
 def noNewlineUCN (p : List Nat) : Bool := (convertUCN p).all (fun e => e.1 != LF || p[e.2]? == some LF)
 
 /-! ## line numbers -/
